@@ -75,5 +75,28 @@ pub fn op_clvm(job: &Value) -> Value {
             }
         }
     }
+    // the cl23+ post-codegen rewrites (null_optimization, remove_double_apply, brief_path_selection) applied as the
+    // Strategy23 hooks apply them
+    if job.get("postopt").and_then(|b| b.as_bool()).unwrap_or(false) {
+        let r = std::panic::catch_unwind(|| {
+            use chialisp::compiler::optimize::brief::brief_path_selection;
+            use chialisp::compiler::optimize::double_apply::remove_double_apply;
+            use chialisp::compiler::optimize::null_optimization_of_expression;
+            let code = crate::rich::to_rich(&prog, crate::rich::Spelling::Int);
+            let (_, a) = null_optimization_of_expression(code);
+            let (_, b) = remove_double_apply(a, true);
+            let (_, c) = brief_path_selection(b);
+            crate::rich::from_rich(&c)
+        });
+        match r {
+            Ok(o) => {
+                let res = consensus_run(&o, &env, CONS_MAX_COST);
+                out["postopt"] = json!({"out": o.to_json(), "res": res.to_json_msg(), "changed": o != prog});
+            }
+            Err(_) => {
+                out["postopt"] = json!({"panic": true});
+            }
+        }
+    }
     out
 }
